@@ -230,6 +230,17 @@ fn dump(req: &J) -> J {
         nodes.push(J::Object(o));
     }
 
+    {
+        // `CompiledProgram::commit` only `expect`s the type 1 -> 1; say so instead of handing out a program with an input
+        let arrow = node.as_ref().cached_data().arrow();
+        let (sw, tw) = (
+            arrow.source.finalize().map(|t| t.bit_width()).unwrap_or(usize::MAX),
+            arrow.target.finalize().map(|t| t.bit_width()).unwrap_or(usize::MAX),
+        );
+        if sw != 0 || tw != 0 {
+            return json!({"ok": false, "stage": "compile", "error": format!("the emitted program is not of type 1 -> 1 (input {} bits, output {} bits)", sw, tw)});
+        }
+    }
     let mut wit = Map::new();
     for (n, t) in ast.witness_types().iter() {
         let sty = StructuralType::from(t);
